@@ -102,7 +102,7 @@ template <class T> static bool exec_buf_t(Ctx &c, const Op &op) {
         char e[48]; std::snprintf(e, sizeof e, "dst=%c,src=%c%s", cl(dst), cl(src), dst == src ? ",self" : ""); note_sig<T>(c, op, e);
         c.budget_bytes = (dst->model.size() + src->model.size()) * sizeof(T);
         if (dst->moved_from || src->moved_from) c.touched_moved_from = true;
-        if (dst == src) { as_const(dst); if (dst->model.size() >= (size_t)ET<T>::limit) probe(c, PR_SELF_COPY_ASSIGN_LONG); }
+        if (dst == src) { as_target(dst); if (dst->model.size() >= (size_t)ET<T>::limit) probe(c, PR_SELF_COPY_ASSIGN_LONG); }      // same value afterwards; the storage may be new
         else {
             as_target(dst); as_const(src);
             bool dl = dst->model.size() >= (size_t)ET<T>::limit, sl = src->model.size() >= (size_t)ET<T>::limit;
@@ -158,7 +158,7 @@ template <class T> static bool exec_buf_t(Ctx &c, const Op &op) {
         if (dst->model.empty() && !dst->moved_from) probe(c, PR_ALLOCATE_AFTER_CLEAR);
         if ((op.fault & F_ALLOC) && dst->model.size() >= (size_t)ET<T>::limit) probe(c, PR_FAULT_ALLOCATE_AFTER_RELEASE);
         as_target(dst);
-        T ch = (T)(0x20 + op.c % 0x5F);
+        T ch = (op.c % 11 == 10) ? T(0) : (T)(0x20 + op.c % 0x5F);      // NUL is an element like any other (a buffer of n zeros has size n)
         Str pattern = op.kind == B_ALLOCATE ? take_units<T>(c, op.c, (uint32_t)n) : Str(n, ch);
         ExcKind ex = run_sut(c, op, [&] {
             if (op.kind == B_ALLOCATE) {
